@@ -4,7 +4,7 @@ import vlib, framework as F
 from checks import engine as E, common as C
 from checks.engine import Failure
 
-WHAT = "model,hooks,classes,toconfig"
+WHAT = "model,hooks,classes,toconfig,wf"
 LEVEL = "proof"
 RULE = ("regression corpus + repository test snippets + seeded random programs, each under a random configuration AND a twin configuration "
         "that differs only in entries whose names do not occur in the program (locality), plus configurations with an empty method list / only "
@@ -145,7 +145,20 @@ def judge(ctx):
             if not ok:
                 out.append(Failure("hook %r wraps operation %r which the configuration does not map to that name" % (nm, tg)))
                 break
+    # the measure of the global theorem (C05_rewrite_only_configured_names) on the implementation's own output tree: members on
+    # the hook namespace whose name is not a configured replacement name (inputs that mention the namespace themselves are left out)
+    if "out_badnames" in m and m.get("in_ns_members") == 0:
+        HYP["theorem_measure_evaluated"] += 1
+        if m.get("prologue_badnames"):
+            HYP["prologue_dereferences_unconfigured_name"] += 1
+        elif m["out_badnames"] != 0:
+            out.append(Failure("%d member expression(s) on the hook namespace carry a name that is not a configured replacement name (measure of the global theorem)" % m["out_badnames"]))
+        if m.get("in_wf") and not m.get("in_optchain"):
+            HYP["in_theorem_fragment"] += 1
     return out
+
+
+HYP = collections.Counter()
 
 
 def nontrivial(ctx):
@@ -160,6 +173,7 @@ def sample_info(ctx):
 
 def run(O, P):
     results = E.run(O, P, __import__("checks.C05", fromlist=["x"]), "C05")
+    O.coverage["global_theorem_measure"] = dict(HYP)
     # (c) locality: twin configurations give the same program (prologue aside) and the same metrics
     by_id = {case["id"]: (case, r, calls) for case, r, calls in results}
     pro_jobs = []
